@@ -60,6 +60,12 @@ pub fn thread_index() -> Option<usize> {
     TIDX.with(|m| m.borrow().get(&id).copied())
 }
 
+/// Run `f` the way code runs that was called from inside the pool (`pool.install`, a
+/// `par_iter` closure, …): `rayon::current_thread_index()` is `Some(idx)`.
+pub fn as_pool_worker<R>(idx: usize, f: impl FnOnce() -> R) -> R {
+    with_thread_index(idx, f)
+}
+
 /// Run `f` as pool worker `idx` (restores the previous index afterwards).
 pub(crate) fn with_thread_index<R>(idx: usize, f: impl FnOnce() -> R) -> R {
     if mode() == Mode::Sequential {
